@@ -326,7 +326,7 @@ func eventTail(evs []Event) string {
 func (x *Exec) opSleep(st *Step) {
 	d := time.Duration(st.N) * time.Second
 	if st.Rel != "" {
-		kind := strings.TrimRight(st.Rel, "+-")
+		kind := strings.TrimRight(st.Rel, "+-~^")
 		var peer = peerAddrOf(0)
 		if len(st.P) > 0 {
 			peer = peerAddrOf(st.P[0])
@@ -342,7 +342,22 @@ func (x *Exec) opSleep(st *Step) {
 		if st.N > 1 {
 			margin = time.Duration(st.N) * time.Second
 		}
-		if strings.HasSuffix(st.Rel, "-") {
+		if fine := strings.HasSuffix(st.Rel, "~") || strings.HasSuffix(st.Rel, "^"); fine {
+			// a probe 50 µs before ("^") or after ("~") the deadline: half a clock tick, an offset no
+			// harness action and no other deadline can have; the next tick returns to the usual offset
+			target := dl.Add(50 * time.Microsecond)
+			if strings.HasSuffix(st.Rel, "^") {
+				target = dl.Add(-50 * time.Microsecond)
+			}
+			if !target.After(now) || target.Sub(now) > 3*time.Hour {
+				return
+			}
+			if x.tieRestore < 0 {
+				x.tieRestore = time.Duration(now.UnixNano()) % time.Second
+			}
+			d = target.Sub(now)
+			x.St.inc("sleep-to-the-edge-of-" + kind)
+		} else if strings.HasSuffix(st.Rel, "-") {
 			target := dl.Add(-margin)
 			if !target.After(now) {
 				return
